@@ -5,6 +5,7 @@ import (
 	"go/ast"
 	"go/constant"
 	"go/token"
+	"go/types"
 	"strconv"
 	"strings"
 )
@@ -25,6 +26,7 @@ func init() {
 		c16Percent(g)
 		c16RoundUp(g)
 		c16GCReturns(g)
+		c16GCListGuards(g)
 	})
 }
 
@@ -153,4 +155,58 @@ func c16GCReturns(g *gen) {
 		_, returns = hit.Body.List[n-1].(*ast.ReturnStmt)
 	}
 	fmt.Fprintf(g.out("Reapers"), "/-- does the garbage collector's per-NodeClaim closure `return` after recording a failed Node lookup\n    (`if IgnoreDuplicateNodeError(IgnoreNodeNotFoundError(err)) != nil { errs[i] = err … }`, %s)? -/\ndef gcReturnsOnNodeLookupError : Bool := %v\n\n", g.pos(hit.Pos()), returns)
+}
+
+// garbagecollection.Controller.Reconcile: the two list calls whose results decide what "the provider no longer
+// lists" means,
+//
+//	nodeClaims, err := nodeclaimutils.ListManaged(...)
+//	cloudProviderNodeClaims, err := c.cloudProvider.List(ctx)
+//
+// and the condition of the early-return `if` that immediately follows each of them (the model aborts the pass on
+// ANY error of either call: that is only the code's behaviour while the conditions are the plain `err != nil`,
+// not e.g. `client.IgnoreNotFound(err) != nil` / `cloudprovider.IgnoreNodeClaimNotFoundError(err) != nil`).
+func c16GCListGuards(g *gen) {
+	const pkgPath = "pkg/controllers/nodeclaim/garbagecollection"
+	_, fd := g.findFunc(pkgPath, "Controller.Reconcile")
+	if fd == nil {
+		return
+	}
+	type guard struct{ call, cond, pos string }
+	var guards []guard
+	for k, st := range fd.Body.List {
+		as, ok := st.(*ast.AssignStmt)
+		if !ok || len(as.Rhs) != 1 {
+			continue
+		}
+		ce, ok := as.Rhs[0].(*ast.CallExpr)
+		if !ok {
+			continue
+		}
+		name := exprString(ce.Fun)
+		if name != "nodeclaimutils.ListManaged" && !strings.HasSuffix(name, ".cloudProvider.List") {
+			continue
+		}
+		gd := guard{call: name, cond: "<no early return on error>", pos: g.pos(as.Pos())}
+		if k+1 < len(fd.Body.List) {
+			if is, ok := fd.Body.List[k+1].(*ast.IfStmt); ok && is.Init == nil && is.Else == nil {
+				if n := len(is.Body.List); n > 0 {
+					if _, ret := is.Body.List[n-1].(*ast.ReturnStmt); ret {
+						gd.cond = types.ExprString(is.Cond)
+					}
+				}
+			}
+		}
+		guards = append(guards, gd)
+	}
+	if len(guards) == 0 {
+		g.errf("%s.Controller.Reconcile: neither nodeclaimutils.ListManaged nor cloudProvider.List is called at the top level", pkgPath)
+		return
+	}
+	var items, where []string
+	for _, gd := range guards {
+		items = append(items, fmt.Sprintf("(%s, %s)", strconv.Quote(gd.call), strconv.Quote(gd.cond)))
+		where = append(where, gd.pos)
+	}
+	fmt.Fprintf(g.out("Reapers"), "/-- the garbage collector's list calls and the condition of the early-return `if` right after each (%s):\n    which errors of a list call end the pass -/\ndef gcListGuards : List (String × String) := [%s]\n\n", strings.Join(where, ", "), strings.Join(items, ", "))
 }
